@@ -27,6 +27,7 @@ sys.path.insert(0, os.path.join(os.path.dirname(os.path.abspath(__file__)), ".."
 import common  # noqa: E402
 import frontends as F  # noqa: E402
 import schema as S  # noqa: E402
+import C15  # noqa: E402  (generator of definition sets with constants and typedefs)
 from checklib import Check  # noqa: E402
 
 TOOLS = os.path.join(common.VERIF, "tools")
@@ -51,6 +52,13 @@ for tag, path in job["mods"]:
         continue
     r["consts"] = {k: v for k, v in vars(mod).items() if isinstance(v, int) and not isinstance(v, bool) and not k.startswith("_")}
     r["enc"] = []
+    r["defaults"] = {}
+    for k, v in sorted(vars(mod).items()):
+        if isinstance(v, type) and hasattr(v, "encode") and getattr(v, "__module__", "") == mod.__name__:
+            try:
+                r["defaults"][k] = [bytearray(v().encode(e)).hex() for e in "<>"]
+            except BaseException as e:
+                r["defaults"][k] = "EXC:%%s" %% type(e).__name__
     if t is None:
         continue
     try:
@@ -89,7 +97,39 @@ def enums_of(model):
                     try:
                         out[mn] = int(str(mv), 0)
                     except ValueError:
-                        out[mn] = str(mv)
+                        pass            # symbolic value: compared through the generated Python modules
+    return out
+
+
+def normalised_structs(model):
+    """structs_of with symbolic array sizes and union discriminators replaced by their numbers (the text
+    front-end evaluates them while parsing, isar passes the text through): wire layout is what counts"""
+    env = {}
+
+    def ev(x):
+        try:
+            return int(str(x), 0)
+        except ValueError:
+            try:
+                return int(eval(str(x), {"__builtins__": {}}, dict(env)))   # text written by this harness
+            except Exception:  # noqa
+                return None
+    for nodes in model.get("files", {}).values():
+        for n in nodes:
+            if n["class"] == "Constant":
+                env[n["name"]] = ev(n["value"])
+            elif n["class"] == "Enum":
+                for mn, mv in n["members"]:
+                    env[mn] = ev(mv)
+    out = json.loads(json.dumps(F.structs_of(model)))
+    for n in out.values():
+        for m in n["members"]:
+            if n["class"] == "Struct":
+                if m[6] is not None:
+                    m[3] = str(m[6])
+            else:
+                v = ev(m[2])
+                m[2] = str(v) if v is not None else m[2]
     return out
 
 
@@ -115,15 +155,20 @@ def run_equiv(case, root):
     if "error" in mx:
         msg = "%s: %s" % (mx["error"], mx.get("message", "")[:300])
         return [("isar route fails where the text route compiles", re.sub(r"\b[A-Z]\w*\d+\w*|'[^']*'", "N", msg)[:100], msg)]
-    diffs = F.compare_layout(F.structs_of(mt), F.structs_of(mx))
+    if case.get("definitions"):
+        mis = [f for f in C15.judge_run(case["definitions"], {"nodes": mx["files"].get("m", []), "import": None})
+               if f[0] == C15.MISORDER]
+        if mis:
+            return [("skipped", "isar output misordered (C15): " + mis[0][1], mis[0][2])]
+    diffs = F.compare_layout(normalised_structs(mt), normalised_structs(mx))
     if diffs:
         d0 = diffs[0]
         what = d0[2] if d0[0] == "layout" and d0[2] in ("byte_size", "alignment", "kind") else "member"
         fails.append(("models differ between the text and the isar route", "%s: %s" % (d0[0], what),
                       "[kind, node, what, text route, isar route]: %s" % json.dumps(diffs[:6])))
     et, ex = enums_of(mt), enums_of(mx)
-    if et != ex:
-        bad = {k: (et.get(k), ex.get(k)) for k in set(et) | set(ex) if et.get(k) != ex.get(k)}
+    if any(et[k] != ex[k] for k in set(et) & set(ex)):
+        bad = {k: (et.get(k), ex.get(k)) for k in set(et) & set(ex) if et.get(k) != ex.get(k)}
         fails.append(("enumerator values differ between the text and the isar route",
                       "negative value" if case.get("mode") == "negenum" else "value", json.dumps(bad)[:300]))
     enc = run_enc({"schema": case.get("schema"), "values": case.get("values", []),
@@ -141,6 +186,11 @@ def run_equiv(case, root):
                               "exception" if "EXC" in str(a) + str(b) else "bytes",
                               "value #%d %s: text route %s, isar route %s" % (vi, json.dumps(case["values"][vi])[:200], a, b)))
                 break
+        dt, dx = enc["t"]["defaults"], enc["x"]["defaults"]
+        bad = {k: (dt.get(k), dx.get(k)) for k in set(dt) | set(dx) if dt.get(k) != dx.get(k)}
+        if bad:
+            fails.append(("encodings differ between the text and the isar route", "default-constructed objects",
+                          "class: (text route, isar route) [little, big]: %s" % json.dumps(bad)[:400]))
         ct, cx = enc["t"]["consts"], enc["x"]["consts"]
         bad = {k: (ct.get(k), cx.get(k)) for k in set(ct) | set(cx) if ct.get(k) != cx.get(k)}
         if bad:
@@ -195,7 +245,7 @@ def run_absent(case, root):
     return []
 
 
-RUNNERS = {"equiv": run_equiv, "negenum": run_equiv, "patch-applicable": run_equiv, "patch-inapplicable": run_must_fail,
+RUNNERS = {"equiv": run_equiv, "negenum": run_equiv, "rich": run_equiv, "patch-applicable": run_equiv, "patch-inapplicable": run_must_fail,
            "patch-absent": run_absent}
 
 
@@ -427,6 +477,36 @@ def equiv_cases(seed, n_schemas, styles_per_schema):
     return cases, skipped
 
 
+def rich_cases(seed, n):
+    """definition sets with constants, constant expressions, typedefs (chains, of composites), enumerators
+    given by constants, array sizes and discriminators given by constants / enumerators — things the
+    schema tuples cannot say — as isar xml (any document order) and as prophy text (dependency order)"""
+    rng = random.Random(seed)
+    out = []
+    for i in range(n):
+        ks, edges = C15.random_shape(rng, rng.randint(3, 9), pool="CCTTTEESSSUU")
+        # prophyc misorders constants / enumerators that name another enum's enumerator (C15): not asked here
+        edges = {k: f for k, f in edges.items() if not (ks[k[0]] in "CE" and ks[k[1]] == "E")}
+        ds = C15.DefSet(ks, edges, rng=random.Random(rng.getrandbits(30)), forms=(0, 1, 2))
+        structs = []
+        for name, ms in ds.structs:
+            new = []
+            for fn, tn, dim in ms:
+                if dim == "dyn":
+                    dim = ("dyn", fn + "_len")                  # isar's implicit counter, spelled out for the text
+                elif dim and dim[0] == "limited" and len(dim) == 2:
+                    dim = ("limited", dim[1], "num_of_" + fn)   # the text's implicit counter, spelled out for isar
+                new.append((fn, tn, dim))
+            structs.append((name, new))
+        kw = dict(constants=ds.constants, enums=ds.enums, typedefs=ds.typedefs, structs=structs, unions=ds.unions)
+        order = list(ds.names)
+        rng.shuffle(order)
+        out.append({"mode": "rich", "style": "constants and typedefs", "schema_text": F.constants_to_prophy(order=ds.names, **kw),
+                    "xml": F.to_isar_constants(order=order, **kw), "patch": None, "definitions": ds.describe(),
+                    "label": "rich:%d:%s" % (i, ks), "cls": ("rich", "".join(sorted(set(ks))), len(edges) // 3)})
+    return out
+
+
 def inject_cases(cases, rng, n):
     """inapplicable / absent rules put at random places into patch files that work"""
     out = []
@@ -443,11 +523,15 @@ def inject_cases(cases, rng, n):
         members = re.findall(r'<member[^>]*\bname="([^"]+)"', struct.group(1)) if struct else []
         label, form = rng.choice(forms)
         rule = form % node
+        pos = rng.randint(0, len(lines))
         if "%s" in rule:
+            # a later rule on the same member would override the nonsense: put these last, on the final names
+            final = node[:-4] if node.endswith("_Pre") else node
+            members = [f[0] for d in S.decls(c["schema"]) if d[1] == final and d[0] == "struct" for f in d[2]]
             if not members:
                 continue
             rule = rule % rng.choice(members)
-        pos = rng.randint(0, len(lines))
+            pos = len(lines)
         out.append({"mode": "patch-inapplicable", "style": "injected into a working patch file", "schema_text": c["schema_text"],
                     "xml": c["xml"], "patch": "\n".join(lines[:pos] + [rule] + lines[pos:]) + "\n", "rule": rule, "node": node,
                     "signature": "%s: %s" % (rule.split()[1], label), "label": "inject:" + c["label"]})
@@ -465,7 +549,7 @@ def inject_cases(cases, rng, n):
 def case_dict(c, kind, detail):
     d = {"kind": kind, "style": c.get("style"), "schema_text": c.get("schema_text"), "xml": c["xml"], "patch": c.get("patch"),
          "detail": detail, "mode": c["mode"], "label": c.get("label")}
-    for k in ("schema", "values", "rule", "node", "signature", "patch_without", "action"):
+    for k in ("schema", "values", "rule", "node", "signature", "patch_without", "action", "definitions"):
         if c.get(k) is not None:
             d[k] = c[k]
     return d
@@ -500,10 +584,11 @@ def main():
     cases, skipped = equiv_cases(chk.seed, 150 if quick else 1500, 2 if quick else len(F.STYLES))
     n_equiv = len(cases)
     neg = negenum_cases(random.Random(chk.seed + 2), 20 if quick else 200)
+    rich = rich_cases(chk.seed + 4, 100 if quick else 1000)
     matrix = patch_matrix()
     injected = inject_cases(cases, random.Random(chk.seed + 3), 40 if quick else 400)
     corpus = load_corpus()
-    allc = cases + neg + matrix + injected + corpus
+    allc = cases + neg + rich + matrix + injected + corpus
     root = common.scratch("c17")
 
     def job(a):
@@ -524,6 +609,9 @@ def main():
         by_mode[c["mode"]] = by_mode.get(c["mode"], 0) + 1
         chk.seen_class(c.get("cls") or (c["mode"], c.get("signature") or c.get("label")), True)
         for kind, sig, detail in fails:
+            if kind == "skipped":
+                skipped[sig] = skipped.get(sig, 0) + 1
+                continue
             total += 1
             key = (kind, sig)
             size = len(c["xml"]) + len(c.get("patch") or "")
@@ -556,11 +644,14 @@ def main():
         "wrapped exhaustive-small members; styles of frontends.to_isar %s per schema, document order shuffled, a quarter of the "
         "structs as <message>, bytes via patch `type` or type=\"byte\"; text route schema.to_prophy. Compared: struct/union shape "
         "and layout of the two models (compare_layout), enumerator values, 3 values (min/max/mixed) encoded by both generated "
-        "Python modules in both byte orders, module constants. %d schemas with negative isar enumerators (decimal and hex, plain / "
+        "Python modules in both byte orders, module constants, default-constructed objects of every class. %d definition sets with "
+        "constants, constant expressions, typedef chains and typedefs of composites, enumerators / array sizes / discriminators "
+        "given by constants (C15.DefSet through to_isar_constants / constants_to_prophy; symbolic sizes and discriminators "
+        "compared by value). %d schemas with negative isar enumerators (decimal and hex, plain / "
         "optional / array / union arm) against the text schema with v mod 2^32. Patch matrix over a fixed 6-node xml: %d applicable "
         "uses with the documented result as text, %d inapplicable uses (must exit non-zero), %d rules naming an absent node (all "
         "three generators' outputs byte-identical to a run without them); %d rules of both sorts injected at random positions "
-        "into generated patch files." % (n_equiv, "2 of 5 (rotating)" if quick else "all 5", len(neg),
+        "into generated patch files." % (n_equiv, "2 of 5 (rotating)" if quick else "all 5", len(rich), len(neg),
                                          chk.coverage["patch_matrix"]["patch-applicable"], chk.coverage["patch_matrix"]["patch-inapplicable"],
                                          chk.coverage["patch_matrix"]["patch-absent"], len(injected)))
     for c in cases:
